@@ -177,4 +177,63 @@ theorem recover_total_prefix (c : Cfg) (hc : GoodR c.r) : Recovers c := by
         exact List.prefix_append _ _
       · simp [recover, mainIndex, hg, hload]
 
+/-- **Writes after a recovery are recoverable (repaired reader and repaired open).**  With an
+    `openExistingFile` that cuts a torn tail (and recreates a file whose header never made it to
+    disk), a fresh chronicler can write and sync on every crash image, and the next load returns
+    the recovered records plus the new ones. -/
+theorem append_after_recovery (c : Cfg) (hc : GoodR c.r) (ht : c.truncatesTornTail = true) : Appendable c := by
+  intro mk hmk nl bs acts i j k hcp items hne
+  have hinv := run_inv c mk hmk nl bs acts
+  -- the image `Load` sees: no temp, main file missing or a prefix of a clean file
+  have himg : ∃ blocks : List Block, (∀ b ∈ blocks, b.WF) ∧
+      (afterLoad c (lossyImageAt {} (runActs c mk nl bs acts).ops i j k)).temp = none ∧
+      ((afterLoad c (lossyImageAt {} (runActs c mk nl bs acts).ops i j k)).main = none ∨
+        ∃ g, (afterLoad c (lossyImageAt {} (runActs c mk nl bs acts).ops i j k)).main = some g ∧
+          g <+: fileCells nl blocks) := by
+    rcases hinv.shape with ⟨hops, _, _, _⟩ | ⟨evs, hst⟩
+    · rw [hops] at hcp ⊢
+      obtain ⟨hi, _, _⟩ := hcp
+      have : i = 0 := by simpa using hi
+      subst this
+      exact ⟨[], by simp, by simp [lossyImageAt, imageAt, Disk.applyAll, afterLoad, loadOps, rmTempOps],
+        Or.inl (by simp [lossyImageAt, imageAt, Disk.applyAll, afterLoad, loadOps, rmTempOps])⟩
+    · have hops : (runActs c mk nl bs acts).ops = sessionOps nl evs := hst.ops
+      rw [hops] at hcp ⊢
+      obtain ⟨img, himg, htemp, hshape⟩ := session_crash_image c nl evs i j k hcp
+      rw [himg]
+      refine ⟨evBlocks evs, hst.wf, htemp, ?_⟩
+      rcases hshape with ⟨h, _⟩ | ⟨g, hg, _, hgf⟩
+      · exact Or.inl h
+      · exact Or.inr ⟨g, hg, hgf⟩
+  obtain ⟨blocks, hwf, htemp, hmain⟩ := himg
+  generalize afterLoad c (lossyImageAt {} (runActs c mk nl bs acts).ops i j k) = d at htemp hmain ⊢
+  obtain ⟨bs0, w, o, hopen, hwinv, hp, hbuf, hwf0, hrec⟩ := open_repaired c hc ht nl bs blocks hwf d htemp hmain
+  have hemp : items.isEmpty = false := by cases items <;> simp_all
+  obtain ⟨a, ha, pa⟩ := addManyW_spec mk hmk items (d.applyAll o) w (fileCells nl bs0) hwinv
+  obtain ⟨nbs, hn, hnwf, hget⟩ := syncW_spec c mk hmk _ _ _ pa.inv
+  have hpath : (addManyW mk w items).1.path = .main := by rw [pa.path, hp]
+  rw [hpath] at hget
+  simp only [cWrite, hemp, ensureW, hopen, cSync, Bool.false_eq_true, if_false]
+  rw [Disk.applyAll_append]
+  have hfin : (((d.applyAll o).applyAll (addManyW mk w items).2).applyAll (syncW c mk (addManyW mk w items).1).2).main =
+      some (fileCells nl (bs0 ++ a ++ nbs)) := by
+    simp only [Disk.get] at hget
+    rw [hget]; simp [fileCells, render_append, List.append_assoc]
+  have hall : ∀ b ∈ bs0 ++ a ++ nbs, b.WF := by
+    intro b hb
+    rcases List.mem_append.mp hb with hb | hb
+    · rcases List.mem_append.mp hb with hb | hb
+      · exact hwf0 b hb
+      · exact pa.wf b hb
+    · exact hnwf b hb
+  simp only [recover, mainIndex, hfin, loadFile_clean c.r nl _ hall]
+  rw [entsOf_append, entsOf_append, List.append_assoc, hn, ha, hbuf, List.nil_append, Index.replay_append]
+  simp only [recover] at hrec
+  rw [← hrec]
+  rfl
+
+/-- C02 holds for the repaired reader and the repaired open. -/
+theorem holds_of_repaired (c : Cfg) (hc : GoodR c.r) (ht : c.truncatesTornTail = true) : Holds c :=
+  ⟨recover_total_prefix c hc, append_after_recovery c hc ht⟩
+
 end Hv.C02
